@@ -142,6 +142,44 @@ func RunProxy(c *Ctx) error {
 		}
 	}
 	da.ErrWrap = ""
+	// batches whose size is at and near the client's DEFAULT limit (what crosses the wire is larger than the raw
+	// blobs): the same answer through the proxy as in-process
+	{
+		cl2, err2 := proxy.NewClient(context.Background(), logger, fmt.Sprintf("http://127.0.0.1:%d", port), "", "")
+		if err2 == nil {
+			L := int(cl2.DA.MaxBlobSize)
+			direct2 := limitedDA{DA: da, limit: L}
+			paths2 := []struct {
+				name string
+				da   coreda.DA
+			}{{"direct", direct2}, {"proxy", &cl2.DA}}
+			type big struct {
+				sizes []int
+				fit   int
+			}
+			for _, bc := range []big{{[]int{L}, 1}, {[]int{L - 1}, 1}, {[]int{L*3/4 + 4096}, 1}, {[]int{L / 2}, 1}, {[]int{L / 2, L/2 - 16, 100}, 2}, {[]int{L / 3, L / 3, L / 3, 64}, 3}, {[]int{L + 1}, 0}} {
+				var blobs [][]byte
+				for _, sz := range bc.sizes {
+					seq++
+					b := make([]byte, sz)
+					copy(b, fmt.Sprintf("%04d", seq))
+					blobs = append(blobs, b)
+				}
+				for _, p := range paths2 {
+					da.SubmitScript = nil
+					s0 := da.Submits
+					res := types.SubmitWithHelpers(context.Background(), p.da, logger, blobs, 1.0, nil)
+					sent := 0
+					if da.Submits > s0 {
+						sent = da.LastOffered
+					}
+					c.Tr.Emit("PCall", world.F{"op": "submit", "via": p.name, "nb": len(blobs), "fit": bc.fit, "fault": "none", "code": codeNames[res.Code],
+						"count": int(res.SubmittedCount), "nblobs": 0, "sent": sent, "blobsok": true})
+				}
+			}
+			cl2.Close()
+		}
+	}
 	// retrieval: populated, empty and future heights, listing / chunk failures
 	stored := map[uint64][][]byte{}
 	for h := uint64(1050); h < 1054; h++ {
